@@ -6,7 +6,7 @@ import vlib, rel, scale
 def configs(tier):
     base = [{"partitions": 1, "hash_joins": True}, {"partitions": 1, "hash_joins": False},
             {"partitions": 3, "hash_joins": True, "batch_size": 2},
-            {"partitions": 3, "hash_joins": False, "batch_size": 2, "threads": 4}]
+            {"partitions": 3, "hash_joins": False, "batch_size": 2, "threads": 4, "_style": {"bare_on": True}}]
     if tier == "thorough":
         base += [{"partitions": 8, "hash_joins": True, "threads": 8},
                  {"partitions": 2, "hash_joins": True, "optimizer": False},
@@ -37,8 +37,10 @@ def run(tier):
         db = rel.make_db({"A": ta, "B": tb})
         cfg = cfgs[i % len(cfgs)] if tier == "quick" else None
         for c in ([cfg] if cfg else cfgs[: 4]):
+            c = dict(c)
+            style = c.pop("_style", None)
             for qq in queries:
-                run_.add("/".join(qq["tag"]), qq["q"], db, c)
+                run_.add("/".join(qq["tag"]), qq["q"], db, c, style=style)
     # formula-built larger inputs: many-to-many matches larger than a batch, many distinct keys
     big = []
     n = 24 if tier == "quick" else 60
